@@ -131,7 +131,7 @@ impl Prop for C10 {
     }
 
     fn cases(tier: Tier) -> u64 {
-        tier.pick(20_000, 200_000)
+        tier.pick(20_000, 800_000)
     }
 
     fn enumerate(tier: Tier) -> Vec<Case> {
